@@ -39,7 +39,7 @@ func (c c06ECred) user() string {
 }
 
 type c06EOp struct {
-	Op    string     `json:"op"` // update | req
+	Op    string     `json:"op"` // update | req | reload (new generation: Inherit, close the old one)
 	Users []c06ECred `json:"users"`
 	Nil   bool       `json:"nil"`   // update delivered as a nil map
 	Creds string     `json:"creds"` // req: user:password
@@ -101,33 +101,53 @@ func c06EUsers(users []c06ECred) [][2]string {
 func c06RunEtcd(in c06EIn) (obs c06EObs) {
 	cl := clustertest.NewMockedCluster()
 	sy := clustertest.NewMockedSyncer()
-	ch := make(chan map[string]string)
+	// every SyncPrefix call (one per validator generation) gets its own channel; the content of
+	// etcd is what the last update left there
+	var ch chan map[string]string
+	var chMu sync.Mutex
+	content := c06EKvs(in.Prefix, in.Initial)
 	cl.MockedSyncer = func(time.Duration) (cluster.Syncer, error) { return sy, nil }
-	sy.MockedSyncPrefix = func(string) (<-chan map[string]string, error) { return ch, nil }
+	sy.MockedSyncPrefix = func(string) (<-chan map[string]string, error) {
+		chMu.Lock()
+		defer chMu.Unlock()
+		ch = make(chan map[string]string)
+		return ch, nil
+	}
 	cl.MockedGetPrefix = func(string) (map[string]string, error) {
 		if in.InitErr {
 			return nil, fmt.Errorf("etcd unavailable")
 		}
-		return c06EKvs(in.Prefix, in.Initial), nil
+		chMu.Lock()
+		defer chMu.Unlock()
+		return content, nil
 	}
 	var mm sync.Map
 	super := supervisor.NewMock(nil, cl, mm, mm, nil, nil, false, nil, nil)
-	spec, err := filters.NewSpec(super, "", map[string]interface{}{"kind": Kind, "name": "c06etcd",
-		"basicAuth": map[string]interface{}{"mode": "ETCD", "etcdPrefix": in.Prefix}})
-	if err != nil {
-		panic("verif: harness defect: " + err.Error())
+	newGen := func(prefix string) *Validator {
+		spec, err := filters.NewSpec(super, "", map[string]interface{}{"kind": Kind, "name": "c06etcd",
+			"basicAuth": map[string]interface{}{"mode": "ETCD", "etcdPrefix": prefix}})
+		if err != nil {
+			panic("verif: harness defect: " + err.Error())
+		}
+		return &Validator{spec: spec.(*Spec)}
 	}
-	v := &Validator{spec: spec.(*Spec)}
+	v := newGen(in.Prefix)
 	v.Init()
-	defer v.Close()
+	defer func() { v.Close() }()
 
 	// the channel is unbuffered and the watcher applies one map at a time: when
 	// the second send of the same map returns, the first one has been applied
+	// A send nobody takes within the timeout means that no watcher listens any more: etcd has
+	// changed all the same, the history goes on (recorded as "stuck").
 	deliver := func(m map[string]string) bool {
+		chMu.Lock()
+		content = m
+		c := ch
+		chMu.Unlock()
 		for i := 0; i < 2; i++ {
 			select {
-			case ch <- m:
-			case <-time.After(10 * time.Second):
+			case c <- m:
+			case <-time.After(3 * time.Second):
 				return false
 			}
 		}
@@ -148,14 +168,22 @@ func c06RunEtcd(in c06EIn) (obs c06EObs) {
 			if !op.Nil {
 				m = c06EKvs(in.Prefix, op.Users)
 			}
-			if !deliver(m) {
+			if !obs.Stuck && !deliver(m) {
 				obs.Stuck = true
-				return
+			} else if obs.Stuck {
+				chMu.Lock()
+				content = m
+				chMu.Unlock()
 			}
 			current = c06EUsers(op.Users)
 			if op.Nil {
 				current = nil
 			}
+		case "reload": // as Pipeline.Inherit does: build, Inherit, close the previous generation
+			nv := newGen(in.Prefix)
+			nv.Inherit(v)
+			v.Close()
+			v = nv
 		case "req":
 			b64 := base64.StdEncoding.EncodeToString([]byte(op.Creds))
 			req := c06Req{Method: "GET", Path: "/", Host: "example.com", Headers: [][2]string{{"Authorization", "Basic " + b64}}}
@@ -218,6 +246,9 @@ func c06GenEtcd(r *vfRand, adv bool) c06EIn {
 	for i, n := 0, r.Range(1, 2); i < n; i++ {
 		request()
 	}
+	if r.Chance(1, 3) {
+		in.Ops = append(in.Ops, c06EOp{Op: "reload"})
+	}
 	for i, n := 0, r.Range(1, 5); i < n; i++ {
 		op := c06EOp{Op: "update"}
 		k := r.Intn(7)
@@ -266,6 +297,12 @@ func c06GenEtcd(r *vfRand, adv bool) c06EIn {
 		known = append(known, cur...)
 		for j, m := 0, r.Range(1, 3); j < m; j++ {
 			request()
+		}
+		if r.Chance(1, 3) || (adv && r.Chance(1, 2)) {
+			in.Ops = append(in.Ops, c06EOp{Op: "reload"})
+			if r.Chance(1, 2) {
+				request()
+			}
 		}
 	}
 	return in
